@@ -369,6 +369,9 @@ impl<const M: usize> Sim<M> {
                 continue;
             }
             self.step_events.push((ev.kind as u8, ev.size, ev.align));
+            if std::env::var_os("VERIF_TRACE").is_some() {
+                eprintln!("  op {} ({:?}): {:?} size {} align {} addr {:#x} (limit {:?}, cap {})", self.opi, kind, ev.kind, ev.size, ev.align, ev.addr, self.limit, self.last_cap);
+            }
             match ev.kind {
                 EvKind::Alloc => {
                     self.st(St::NewChunk);
@@ -385,7 +388,8 @@ impl<const M: usize> Sim<M> {
                         let m = format!("arena obtained memory during {:?}", kind);
                         self.v("C08", m);
                     }
-                    if self.no_limit_no_fault && self.last_chunk_size > 0 && ev.size < self.last_chunk_size {
+                    let refused_in_step = self.step_events.iter().any(|e| e.0 == EvKind::Refuse as u8);
+                    if self.limit.is_none() && !refused_in_step && self.last_chunk_size > 0 && ev.size < self.last_chunk_size {
                         let m = format!("new chunk of {} bytes is smaller than the previous one ({}) although nothing was refused and no limit is set", ev.size, self.last_chunk_size);
                         self.v("C18", m);
                     }
